@@ -8,38 +8,45 @@ import ChibiVerif.Lemmas.LinkageExact
 namespace ChibiVerif.Linkage
 open ChibiVerif.Spec.Linkage
 
-/-- where a data object of the unit comes from -/
+variable [Rules]
+
+/-- the visible declarations after the file-scope declarations `ds` -/
+def envAfter (env : SEnv) (ds : List Decl) : SEnv := ds.foldl envDecl env
+
+theorem envAfter_snoc (env : SEnv) (pre : List Decl) (d : Decl) : envAfter env (pre ++ [d]) = envDecl (envAfter env pre) d := by
+  simp [envAfter, List.foldl_append]
+
+/-- where a data object of the unit comes from.  For a file-scope object declaration the value `global_variable` stores in
+    `is_static` is given by the declarations in front of it (`varStatic` of the environment they leave). -/
 inductive NewsKind (ds : List Decl) : Obj → Prop where
-  | var {x : Name} {s e t : Bool} {ty : ObjTy} {init : Option (List InitItem)} {k : Nat} :
-      Decl.obj x s e t ty init ∈ ds → NewsKind ds (varObj k x s e t ty init)
-  | ext {f : Name} {n : Nat} {s e i : Bool} {b : List BodyItem} {x : Name} {tls : Bool} {ty : ObjTy} :
-      Decl.func f n s e i (some b) ∈ ds → BodyItem.externObj x tls ty ∈ b → NewsKind ds (externO x tls ty)
+  | var {x : Name} {s e t : Bool} {ty : ObjTy} {init : Option (List InitItem)} {k : Nat} (pre post : List Decl) :
+      ds = pre ++ Decl.obj x s e t ty init :: post →
+      NewsKind ds (varObj k x (varStatic (envAfter env0 pre) x s e) e t ty init)
+  | ext {f : Name} {n : Nat} {s e i : Bool} {b : List BodyItem} {x : Name} {tls : Bool} {ty : ObjTy} (stc : Bool) :
+      Decl.func f n s e i (some b) ∈ ds → BodyItem.externObj x tls ty ∈ b → NewsKind ds (externO x tls ty stc)
   | sl {f : Name} {n : Nat} {s e i : Bool} {b : List BodyItem} {tls : Bool} {ty : ObjTy} {init : Option (List InitItem)} {k : Nat} :
-      Decl.func f n s e i (some b) ∈ ds → BodyItem.staticLocal tls ty init ∈ b → NewsKind ds (slObj k tls ty init)
-  | str {k n : Nat} : NewsKind ds (strObj k n)
+      Decl.func f n s e i (some b) ∈ ds → BodyItem.staticLocal tls ty init ∈ b → NewsKind ds (slObj f k tls ty init)
+  | str {cur : Option Name} {k n : Nat} : NewsKind ds (strObj cur k n)
 
-theorem NewsKind.mono {ds ds' : List Decl} (h : ∀ d, d ∈ ds → d ∈ ds') {o : Obj} (k : NewsKind ds o) : NewsKind ds' o := by
-  cases k with
-  | var hd => exact .var (h _ hd)
-  | ext hd hb => exact .ext (h _ hd) hb
-  | sl hd hb => exact .sl (h _ hd) hb
-  | str => exact .str
+theorem mem_of_split {ds pre post : List Decl} {d : Decl} (h : ds = pre ++ d :: post) : d ∈ ds := by
+  rw [h]; exact List.mem_append_right _ List.mem_cons_self
 
-theorem initNews_str {items : List InitItem} {k : Nat} {o : Obj} (h : o ∈ initNews k items) : ∃ j n, o = strObj j n := by
+theorem initNews_str {cur : Option Name} {items : List InitItem} {k : Nat} {o : Obj} (h : o ∈ initNews cur k items) :
+    ∃ j n, o = strObj cur j n := by
   obtain ⟨_, j, n, _, rfl⟩ := initNews_spec items k o h
   exact ⟨j, n, rfl⟩
 
 /-- the objects one body pushes -/
-theorem bodyNews_kind : ∀ (b : List BodyItem) (k : Nat) (o : Obj), o ∈ bodyNews k b →
-    (∃ j n, o = strObj j n) ∨ (∃ x tls ty, BodyItem.externObj x tls ty ∈ b ∧ o = externO x tls ty) ∨
-    (∃ tls ty init j, BodyItem.staticLocal tls ty init ∈ b ∧ o = slObj j tls ty init)
-  | [], _, _, h => by simp [bodyNews] at h
-  | i :: rest, k, o, h => by
+theorem bodyNews_kind (f : Name) : ∀ (b : List BodyItem) (env : SEnv) (k : Nat) (o : Obj), o ∈ bodyNews f env k b →
+    (∃ cur j n, o = strObj cur j n) ∨ (∃ x tls ty stc, BodyItem.externObj x tls ty ∈ b ∧ o = externO x tls ty stc) ∨
+    (∃ tls ty init j, BodyItem.staticLocal tls ty init ∈ b ∧ o = slObj f j tls ty init)
+  | [], _, _, _, h => by simp [bodyNews] at h
+  | i :: rest, env, k, o, h => by
     simp only [bodyNews, List.mem_append] at h
     rcases h with h | h
-    · rcases bodyNews_kind rest _ o h with h | ⟨x, tls, ty, hm, ho⟩ | ⟨tls, ty, init, j, hm, ho⟩
+    · rcases bodyNews_kind f rest _ _ o h with h | ⟨x, tls, ty, stc, hm, ho⟩ | ⟨tls, ty, init, j, hm, ho⟩
       · exact Or.inl h
-      · exact Or.inr (Or.inl ⟨x, tls, ty, List.mem_cons_of_mem _ hm, ho⟩)
+      · exact Or.inr (Or.inl ⟨x, tls, ty, stc, List.mem_cons_of_mem _ hm, ho⟩)
       · exact Or.inr (Or.inr ⟨tls, ty, init, j, List.mem_cons_of_mem _ hm, ho⟩)
     · cases i with
       | ref r => simp [bodyItemNews] at h
@@ -51,16 +58,19 @@ theorem bodyNews_kind : ∀ (b : List BodyItem) (k : Nat) (o : Obj), o ∈ bodyN
         | some items =>
           simp only [bodyItemNews, List.mem_append, List.mem_singleton] at h
           rcases h with h | h
-          · exact Or.inl (initNews_str h)
+          · obtain ⟨j, n, hh⟩ := initNews_str h
+            exact Or.inl ⟨_, j, n, hh⟩
           · exact Or.inr (Or.inr ⟨tls, ty, some items, k, List.mem_cons_self, h⟩)
       | str n =>
         simp only [bodyItemNews, List.mem_singleton] at h
-        exact Or.inl ⟨k, n, h⟩
+        exact Or.inl ⟨_, k, n, h⟩
       | externObj x tls ty =>
         simp only [bodyItemNews, List.mem_singleton] at h
-        exact Or.inr (Or.inl ⟨x, tls, ty, List.mem_cons_self, h⟩)
+        exact Or.inr (Or.inl ⟨x, tls, ty, _, List.mem_cons_self, h⟩)
 
-theorem declNews_kind (d : Decl) (k : Nat) (o : Obj) (h : o ∈ declNews k d) : NewsKind [d] o := by
+theorem declNews_kind (pre post : List Decl) (d : Decl) (k : Nat) (o : Obj) (h : o ∈ declNews k (envAfter env0 pre) d) :
+    NewsKind (pre ++ d :: post) o := by
+  have hmem : d ∈ pre ++ d :: post := List.mem_append_right _ List.mem_cons_self
   cases d with
   | func f n s e i body =>
     cases body with
@@ -68,10 +78,10 @@ theorem declNews_kind (d : Decl) (k : Nat) (o : Obj) (h : o ∈ declNews k d) : 
     | some b =>
       simp only [declNews, List.mem_append, List.mem_cons, List.not_mem_nil, or_false] at h
       rcases h with h | h | h
-      · rcases bodyNews_kind b _ o h with ⟨j, m, rfl⟩ | ⟨x, tls, ty, hm, rfl⟩ | ⟨tls, ty, init, j, hm, rfl⟩
+      · rcases bodyNews_kind f b _ _ o h with ⟨cur, j, m, rfl⟩ | ⟨x, tls, ty, stc, hm, rfl⟩ | ⟨tls, ty, init, j, hm, rfl⟩
         · exact .str
-        · exact .ext List.mem_cons_self hm
-        · exact .sl List.mem_cons_self hm
+        · exact .ext stc hmem hm
+        · exact .sl hmem hm
       · subst h; exact .str
       · subst h; exact .str
   | obj x s e t ty init =>
@@ -79,65 +89,71 @@ theorem declNews_kind (d : Decl) (k : Nat) (o : Obj) (h : o ∈ declNews k d) : 
     | none =>
       simp only [declNews, List.mem_singleton] at h
       subst h
-      exact .var List.mem_cons_self
+      exact .var pre post rfl
     | some items =>
       simp only [declNews, List.mem_append, List.mem_singleton] at h
       rcases h with h | h
       · obtain ⟨j, n, rfl⟩ := initNews_str h
         exact .str
       · subst h
-        exact .var List.mem_cons_self
+        exact .var pre post rfl
 
-/-- **every data object of the unit has a source** -/
-theorem allNews_kind : ∀ (ds : List Decl) (k : Nat) (o : Obj), o ∈ allNews k ds → NewsKind ds o
-  | [], _, _, h => by simp [allNews] at h
-  | d :: ds, k, o, h => by
+/-- **every data object of the unit has a source** (with the declarations `pre` already processed) -/
+theorem allNews_kind_gen : ∀ (post pre : List Decl) (k : Nat) (o : Obj), o ∈ allNews k (envAfter env0 pre) post →
+    NewsKind (pre ++ post) o
+  | [], _, _, _, h => by simp [allNews] at h
+  | d :: ds, pre, k, o, h => by
     simp only [allNews, List.mem_append] at h
     rcases h with h | h
-    · exact (allNews_kind ds _ o h).mono (fun _ hd => List.mem_cons_of_mem _ hd)
-    · exact (declNews_kind d k o h).mono (fun d' hd => by
-        rw [List.mem_singleton] at hd; subst hd; exact List.mem_cons_self)
+    · rw [← envAfter_snoc] at h
+      have := allNews_kind_gen ds (pre ++ [d]) _ o h
+      simpa [List.append_assoc] using this
+    · exact declNews_kind pre ds d k o h
+
+theorem allNews_kind (ds : List Decl) (k : Nat) (o : Obj) (h : o ∈ allNews k env0 ds) : NewsKind ds o := by
+  have := allNews_kind_gen ds [] k o (by simpa [envAfter] using h)
+  simpa using this
 
 /-- **every file-scope object declaration has its object** -/
-theorem var_mem_allNews : ∀ (ds : List Decl) (k : Nat) {x : Name} {s e t : Bool} {ty : ObjTy} {init : Option (List InitItem)},
-    Decl.obj x s e t ty init ∈ ds → ∃ k', varObj k' x s e t ty init ∈ allNews k ds
-  | [], _, _, _, _, _, _, _, h => by cases h
-  | d :: ds, k, x, s, e, t, ty, init, h => by
+theorem var_mem_allNews : ∀ (ds : List Decl) (k : Nat) (env : SEnv) {x : Name} {s e t : Bool} {ty : ObjTy} {init : Option (List InitItem)},
+    Decl.obj x s e t ty init ∈ ds → ∃ k' stc, varObj k' x stc e t ty init ∈ allNews k env ds
+  | [], _, _, _, _, _, _, _, _, h => by cases h
+  | d :: ds, k, env, x, s, e, t, ty, init, h => by
     rcases List.mem_cons.mp h with h | h
     · subst h
-      refine ⟨k, ?_⟩
+      refine ⟨k, varStatic env x s e, ?_⟩
       simp only [allNews, List.mem_append]
       right
       cases init <;> simp [declNews]
-    · obtain ⟨k', hk⟩ := var_mem_allNews ds (k + declCount d) h
-      exact ⟨k', by simp only [allNews, List.mem_append]; exact Or.inl hk⟩
+    · obtain ⟨k', stc, hk⟩ := var_mem_allNews ds (k + declCount d) (envDecl env d) h
+      exact ⟨k', stc, by simp only [allNews, List.mem_append]; exact Or.inl hk⟩
 
-theorem sl_mem_bodyNews : ∀ (b : List BodyItem) (k : Nat) {tls : Bool} {ty : ObjTy} {init : Option (List InitItem)},
-    BodyItem.staticLocal tls ty init ∈ b → ∃ k', slObj k' tls ty init ∈ bodyNews k b
-  | [], _, _, _, _, h => by cases h
-  | i :: rest, k, tls, ty, init, h => by
+theorem sl_mem_bodyNews (f : Name) : ∀ (b : List BodyItem) (env : SEnv) (k : Nat) {tls : Bool} {ty : ObjTy} {init : Option (List InitItem)},
+    BodyItem.staticLocal tls ty init ∈ b → ∃ k', slObj f k' tls ty init ∈ bodyNews f env k b
+  | [], _, _, _, _, _, h => by cases h
+  | i :: rest, env, k, tls, ty, init, h => by
     rcases List.mem_cons.mp h with h | h
     · subst h
       refine ⟨k, ?_⟩
       simp only [bodyNews, List.mem_append]
       right
       cases init <;> simp [bodyItemNews]
-    · obtain ⟨k', hk⟩ := sl_mem_bodyNews rest (k + bodyItemCount i) h
+    · obtain ⟨k', hk⟩ := sl_mem_bodyNews f rest (envItem env i) (k + bodyItemCount i) h
       exact ⟨k', by simp only [bodyNews, List.mem_append]; exact Or.inl hk⟩
 
 /-- **every static local has its object** -/
-theorem sl_mem_allNews : ∀ (ds : List Decl) (k : Nat) {f : Name} {n : Nat} {s e i : Bool} {b : List BodyItem} {tls : Bool}
+theorem sl_mem_allNews : ∀ (ds : List Decl) (k : Nat) (env : SEnv) {f : Name} {n : Nat} {s e i : Bool} {b : List BodyItem} {tls : Bool}
     {ty : ObjTy} {init : Option (List InitItem)}, Decl.func f n s e i (some b) ∈ ds → BodyItem.staticLocal tls ty init ∈ b →
-    ∃ k', slObj k' tls ty init ∈ allNews k ds
-  | [], _, _, _, _, _, _, _, _, _, _, h, _ => by cases h
-  | d :: ds, k, f, n, s, e, i, b, tls, ty, init, h, hb => by
+    ∃ k', slObj f k' tls ty init ∈ allNews k env ds
+  | [], _, _, _, _, _, _, _, _, _, _, _, h, _ => by cases h
+  | d :: ds, k, env, f, n, s, e, i, b, tls, ty, init, h, hb => by
     rcases List.mem_cons.mp h with h | h
     · subst h
-      obtain ⟨k', hk⟩ := sl_mem_bodyNews b (k + 2) hb
+      obtain ⟨k', hk⟩ := sl_mem_bodyNews f b env (k + 2) hb
       refine ⟨k', ?_⟩
       simp only [allNews, List.mem_append, declNews]
       exact Or.inr (Or.inl hk)
-    · obtain ⟨k', hk⟩ := sl_mem_allNews ds (k + declCount d) h hb
+    · obtain ⟨k', hk⟩ := sl_mem_allNews ds (k + declCount d) (envDecl env d) h hb
       exact ⟨k', by simp only [allNews, List.mem_append]; exact Or.inl hk⟩
 
 /-! ### fields of the objects -/
@@ -163,17 +179,18 @@ theorem varObj_uses (k : Nat) (x : Name) (s e t : Bool) (ty : ObjTy) (init : Opt
 
 /-- a named data object is a file-scope variable or a block-scope extern -/
 theorem NewsKind.named {ds : List Decl} {o : Obj} {x : Name} (h : NewsKind ds o) (hs : o.sym = .named x) :
-    (∃ s e t ty init k, Decl.obj x s e t ty init ∈ ds ∧ o = varObj k x s e t ty init) ∨
-    (∃ f n s e i b tls ty, Decl.func f n s e i (some b) ∈ ds ∧ BodyItem.externObj x tls ty ∈ b ∧ o = externO x tls ty) := by
+    (∃ s e t ty init k pre post, ds = pre ++ Decl.obj x s e t ty init :: post ∧
+      o = varObj k x (varStatic (envAfter env0 pre) x s e) e t ty init) ∨
+    (∃ f n s e i b tls ty stc, Decl.func f n s e i (some b) ∈ ds ∧ BodyItem.externObj x tls ty ∈ b ∧ o = externO x tls ty stc) := by
   cases h with
-  | @var y s e t ty init k hd =>
+  | @var y s e t ty init k pre post hd =>
     rw [varObj_sym] at hs
     cases hs
-    exact Or.inl ⟨s, e, t, ty, init, k, hd, rfl⟩
-  | @ext f n s e i b y tls ty hd hb =>
+    exact Or.inl ⟨s, e, t, ty, init, k, pre, post, hd, rfl⟩
+  | @ext f n s e i b y tls ty stc hd hb =>
     have : y = x := by simpa [externO] using hs
     subst this
-    exact Or.inr ⟨f, n, s, e, i, b, tls, ty, hd, hb, rfl⟩
+    exact Or.inr ⟨f, n, s, e, i, b, tls, ty, stc, hd, hb, rfl⟩
   | sl hd hb => simp [slObj] at hs
   | str => simp [strObj] at hs
 
@@ -183,8 +200,8 @@ theorem NewsKind.anon {ds : List Decl} {o : Obj} {j : Nat} (h : NewsKind ds o) (
     (o.uses = [] ∨ ∃ f n s e i b tls ty items k, Decl.func f n s e i (some b) ∈ ds ∧
       BodyItem.staticLocal tls ty (some items) ∈ b ∧ o.uses = initLabels k items) := by
   cases h with
-  | var hd => rw [varObj_sym] at hs; cases hs
-  | ext hd hb => simp [externO] at hs
+  | var pre post hd => rw [varObj_sym] at hs; cases hs
+  | ext stc hd hb => simp [externO] at hs
   | @sl f n s e i b tls ty init k hd hb =>
     refine ⟨rfl, rfl, ?_⟩
     cases init with
